@@ -209,7 +209,7 @@ Section Flags.
   Proof.
     intros (HC & HF & HK). split; [apply c01_MWaitHead; auto|].
     destruct HC as (Hr & Hf & HS & Ht & _). cbn in *. subst fr. cbn [step c_mode c_frames c_st].
-    destruct (computed root s); [split; assumption|]. cbn. rewrite HK. split; [|reflexivity].
+    destruct (computed root s); [cbn; split; [apply (flags_view s); [apply heap_drop_sb|apply tasks_drop_sb|exact HF]|rewrite tasks_drop_sb; exact HK]|]. cbn. rewrite HK. split; [|reflexivity].
     apply (flags_stack s); auto. intros u Hu. rewrite HK in Hu. destruct Hu.
   Qed.
 
@@ -217,7 +217,7 @@ Section Flags.
   Proof.
     intros (HC & HF & HK). split; [apply c01_MAfterExec; auto|].
     destruct HC as (Hr & Hf & HS & Ht & _). cbn in *. subst fr. cbn [step c_mode c_frames c_st].
-    destruct (computed root s); [split; assumption|]. cbn.
+    destruct (computed root s); [cbn; split; [apply (flags_view s); [apply heap_drop_sb|apply tasks_drop_sb|exact HF]|rewrite tasks_drop_sb; exact HK]|]. cbn.
     destruct (SInv_continue_with_batch spec None P s HP HS) as (_ & _ & C).
     assert (Hreg : regs (continue_with_batch P s) = regs s) by apply regs_continue_with_batch.
     assert (Hts : tasks (continue_with_batch P s) = tasks s) by (unfold regs in Hreg; congruence).
